@@ -50,11 +50,13 @@ class RuleResult(object):
     def ok(self, desc):
         self.instances.append((desc, "ok"))
 
-    def fail(self, fi_or_mod, node, construct, message, **detail):
+    def fail(self, fi_or_mod, node, construct, message, key_scope=None, **detail):
         """Report a violating construct.  ``construct`` is the normalised text
-        used in the key (never a line number)."""
+        used in the key (never a line number).  ``key_scope`` replaces the
+        function's qualified name in the key (e.g. the class, for findings that
+        must survive the extraction of a helper method)."""
         mod = getattr(fi_or_mod, "module", fi_or_mod)
-        qual = getattr(fi_or_mod, "qualname", getattr(mod, "name", "?"))
+        qual = key_scope or getattr(fi_or_mod, "qualname", getattr(mod, "name", "?"))
         if not isinstance(construct, str):
             construct = norm(construct)
         key = "%s|%s|%s" % (self.rule_id, qual, construct)
